@@ -257,4 +257,83 @@ theorem batchesAux_get (size : Nat) (hs : 0 < size) (fuel : Nat) (rows : List α
             rw [if_neg hlt, if_neg this]
         · simp only [List.length_drop, List.length_cons] at h ⊢; omega
 
+/-! ## Round 2: the generated comprehensions / tests / windows equal the reference functions -/
+
+theorem pyIndex_eq (names : List String) (a : String) : Gen.Frame.pyIndex names a = indexOf names a := by
+  induction names with
+  | nil => rfl
+  | cons n ns ih => simp only [Gen.Frame.pyIndex, indexOf, ih]
+
+theorem selectHeader_eq (names attrs : List String) :
+    selectHeader names attrs = attrs.filter (fun a => decide (a ∈ names)) := rfl
+
+theorem selectIdx_eq (names attrs : List String) :
+    selectIdx names attrs = (selectHeader names attrs).filterMap (indexOf names) := by
+  unfold selectIdx Gen.Frame.selectIndices
+  congr 1
+  funext a
+  exact pyIndex_eq names a
+
+theorem project_eq (idxs : List Nat) (row : List α) : project idxs row = idxs.filterMap (row[·]?) := rfl
+
+theorem take_eq (rows : List α) (idxs : List Int) :
+    take rows idxs = pick (fun i => decide ((i : Int) ∈ idxs)) rows := by
+  unfold take Gen.Frame.takeTest
+  rfl
+
+theorem limitRows_eq (n : Nat) (limit : Option Int) :
+    limitRows n limit = match limit with
+      | none => n
+      | some l => if l < 0 then n else min l.toNat n := by
+  unfold limitRows effLimit Gen.Frame.collectTruncTest Gen.Frame.collectNegTest Gen.Frame.collectAllValue
+  cases limit with
+  | none => simp
+  | some l =>
+    simp only
+    by_cases h : l < 0
+    · simp only [h, if_true]; simp
+    · simp only [h, if_false]
+      by_cases h2 : l < n
+      · have : 0 ≤ l ∧ l < (n : Int) := ⟨by omega, h2⟩
+        simp only [ge_iff_le, this, and_self, if_true]; omega
+      · have : ¬ (0 ≤ l ∧ l < (n : Int)) := by omega
+        simp only [ge_iff_le, this, if_false]; omega
+
+theorem pyRange_simple (n size : Nat) (hs : 0 < size) :
+    pyRange 0 (n : Int) (size : Int) = (List.range ((n + size - 1) / size)).map fun (j : Nat) => ((j * size : Nat) : Int) := by
+  unfold pyRange
+  have : ¬ ((size : Int) ≤ 0) := by omega
+  simp only [this, if_false, Int.sub_zero, Int.toNat_natCast, Int.zero_add]
+  apply List.map_congr_left
+  intro j _
+  simp
+
+theorem batches_get (rows : List α) (size : Nat) (hs : 0 < size) (i : Nat) :
+    (batches rows size)[i]? =
+      if i * size < rows.length then some ((rows.drop (i * size)).take size) else none := by
+  unfold batches Gen.Frame.batchRangeStart Gen.Frame.batchRangeStop Gen.Frame.batchRangeStep
+    Gen.Frame.batchLower Gen.Frame.batchUpper
+  rw [pyRange_simple rows.length size hs]
+  simp only [List.map_map, List.getElem?_map]
+  have key : i < (rows.length + size - 1) / size ↔ i * size < rows.length := by
+    rw [Nat.lt_iff_add_one_le, Nat.le_div_iff_mul_le hs, Nat.succ_mul]
+    omega
+  by_cases h : i * size < rows.length
+  · have h' := key.mpr h
+    simp only [h, if_true]
+    rw [List.getElem?_range h']  
+    simp only [Option.map_some, Function.comp]
+    congr 1
+    have := pySlice_nonneg rows (i * size) size
+    simpa using this
+  · have h' : ¬ i < (rows.length + size - 1) / size := fun x => h (key.mp x)
+    simp only [h, if_false]
+    rw [List.getElem?_eq_none_iff.mpr (by simp; omega)]
+    rfl
+
+theorem batches_eq_chunks (rows : List α) (size : Nat) (hs : 0 < size) : batches rows size = chunks rows size := by
+  apply List.ext_getElem?
+  intro i
+  rw [batches_get rows size hs, chunks, batchesAux_get size hs _ rows (Nat.le_refl _)]
+
 end Frame
